@@ -391,8 +391,8 @@ func (r *c09RelayStub) Pubkey() *phase0.BLSPubKey { return r.pub }
 
 func (r *c09RelayStub) BuilderBid(ctx context.Context, _ *builderapi.BuilderBidOpts) (*builderapi.Response[*builderspec.VersionedSignedBuilderBid], error) {
 	startT := simrt.Now()
-	o, err := r.sc.Do(ctx, r.name, "BuilderBid", nil)
-	if err != nil {
+	o, _ := r.sc.Next(r.name, "BuilderBid", nil)
+	if err := c09Wait(ctx, o, r.name+"/BuilderBid"); err != nil {
 		return nil, err
 	}
 	if o.Variant < 0 {
@@ -410,6 +410,50 @@ func (r *c09RelayStub) BuilderBid(ctx context.Context, _ *builderapi.BuilderBidO
 	rec.sig, _ = bid.Signature()
 	simrt.Crit(func() { r.h.recs = append(r.h.recs, rec) })
 	return &builderapi.Response[*builderspec.VersionedSignedBuilderBid]{Data: bid, Metadata: map[string]any{}}, nil
+}
+
+// c09Wait is the timing part of a simulated relay call (env.Script.Do's
+// job), written so that a latency timer and the caller's context deadline are
+// never both pending in one uninstrumented select: when the answer is due at
+// the very instant of the deadline the stub waits for the deadline alone and
+// the schedule tape decides whether the answer or the cancellation wins.
+// (With two runtime timers at the same instant the Go runtime picks the
+// select case, which is not replayable.)
+func c09Wait(ctx context.Context, o Outcome, site string) error {
+	lat := o.Latency
+	if o.Kind == "hang" {
+		lat = ClientTimeout
+	}
+	if dl, ok := ctx.Deadline(); ok {
+		rem := time.Until(dl)
+		if lat >= rem {
+			<-ctx.Done()
+			simrt.Yield(site)
+			if lat == rem && ctx.Err() == context.DeadlineExceeded && o.Kind == "" {
+				simrt.Probe("answer-due-at-deadline-instant")
+				if simrt.Draw(2) == 1 {
+					simrt.Probe("answer-wins-at-deadline-instant")
+					return nil
+				}
+			}
+			return ctx.Err()
+		}
+	}
+	if err := simrt.Sleep(ctx, lat, site); err != nil {
+		return err
+	}
+	switch o.Kind {
+	case "error":
+		simrt.Probe("fault:BuilderBid-error")
+		return fmt.Errorf("%s: %w", site, ErrSimulated)
+	case "hang":
+		simrt.Probe("fault:BuilderBid-hang")
+		return fmt.Errorf("%s: timeout: %w", site, ErrSimulated)
+	}
+	if lat > 0 {
+		simrt.Probe("fault:latency")
+	}
+	return nil
 }
 
 func (r *c09RelayStub) UnblindProposal(_ context.Context, _ *builderapi.UnblindProposalOpts) (*builderapi.Response[*consensusapi.VersionedSignedProposal], error) {
